@@ -35,6 +35,13 @@ type tstream struct {
 }
 
 func openRead(format string, b []byte, dict int) (out []byte, ctorErr, readErr error, pn *mon.Panic) {
+	return openReadSched(format, b, dict, nil)
+}
+
+// openReadSched is openRead with a schedule of Read buffer lengths: nil reads like io.ReadAll;
+// otherwise the lengths are used in turn (the last one repeats).  What a reader says about a
+// damaged or truncated stream must not depend on how the caller sizes its buffers.
+func openReadSched(format string, b []byte, dict int, sched []int) (out []byte, ctorErr, readErr error, pn *mon.Panic) {
 	pn = mon.Guard(func() {
 		var r io.Reader
 		switch format {
@@ -50,7 +57,36 @@ func openRead(format string, b []byte, dict int) (out []byte, ctorErr, readErr e
 		if ctorErr != nil {
 			return
 		}
-		out, readErr = io.ReadAll(r)
+		if sched == nil {
+			out, readErr = io.ReadAll(r)
+			return
+		}
+		for i := 0; ; i++ {
+			l := sched[len(sched)-1]
+			if i < len(sched) {
+				l = sched[i]
+			}
+			if l < 1 {
+				l = 1
+			}
+			p := make([]byte, l)
+			n, err := r.Read(p)
+			if n < 0 || n > l {
+				panic(fmt.Sprintf("Read with a buffer of %d bytes returned n=%d", l, n))
+			}
+			out = append(out, p[:n]...)
+			if err == io.EOF {
+				return
+			}
+			if err != nil {
+				readErr = err
+				return
+			}
+			if len(out) > 64<<20 {
+				readErr = fmt.Errorf("harness: more than 64 MiB delivered")
+				return
+			}
+		}
 	})
 	return
 }
@@ -286,38 +322,75 @@ func checkC05(c *ev.Ctx) {
 		if !want(c, id) {
 			return
 		}
-		out, cerr, rerr, pn := openRead(s.Format, s.B[:j.cut], s.Dict)
+		// every prefix is read three times: like io.ReadAll, one byte at a time, and with a
+		// buffer that the bytes decodable from the prefix fill exactly (the verdict on a
+		// truncated stream must not depend on the caller's buffer sizes)
 		c.Eval(id, true)
-		det := map[string]any{"case_id": id, "format": s.Format, "features": s.Feat, "stream_len": len(s.B), "cut": j.cut, "stream_hex": ev.Hex(s.B, 1200),
-			"ctor_error": fmt.Sprint(cerr), "read_error": fmt.Sprint(rerr), "delivered": len(out), "content_len": len(s.Content)}
-		if pn != nil {
-			det["what"] = "reader panicked on a prefix: " + pn.Value
-			c.Violation("panic-on-prefix:"+s.Format, det)
-			return
-		}
-		if want, ok := s.Legal[j.cut]; ok {
-			// cut on a stream / padding boundary of a multi-stream file
-			c.Count("legal_boundary_cuts", 1)
-			if cerr != nil || rerr != nil || !bytes.Equal(out, s.Content[:want]) {
-				det["what"] = fmt.Sprintf("cut %d falls on a stream/padding boundary: want clean decode of %d bytes, got ctor=%v read=%v %d bytes", j.cut, want, cerr, rerr, len(out))
-				c.Violation("boundary-cut-not-clean", det)
+		delivered := -1
+		var cerr, rerr error
+		var out []byte
+		for si, schedName := range []string{"readall", "one-byte", "exact-fill"} {
+			var sched []int
+			switch si {
+			case 1:
+				sched = []int{1}
+			case 2:
+				if delivered <= 1 {
+					continue
+				}
+				sched = []int{delivered}
 			}
-			return
-		}
-		rejected := (cerr != nil && cerr != io.EOF) || rerr != nil
-		if !rejected {
-			det["what"] = fmt.Sprintf("prefix of %d of %d bytes of a %s stream is taken as complete: constructor error %v, read ended cleanly after %d of %d content bytes", j.cut, len(s.B), s.Format, cerr, len(out), len(s.Content))
-			c.Violation("prefix-accepted:"+s.Format, det)
-			return
-		}
-		if len(out) > len(s.Content) || !bytes.Equal(out, s.Content[:len(out)]) {
-			det["what"] = fmt.Sprintf("bytes delivered before the error are not a prefix of the content (first difference at %d)", firstDiff(out, s.Content))
-			c.Violation("prefix-delivers-wrong-bytes:"+s.Format, det)
-		}
-		if cerr != nil {
-			c.Count("rejected_at_open", 1)
-		} else {
-			c.Count("rejected_while_reading", 1)
+			var pn *mon.Panic
+			out, cerr, rerr, pn = openReadSched(s.Format, s.B[:j.cut], s.Dict, sched)
+			if si == 0 {
+				delivered = len(out)
+			}
+			c.Count("reads:"+schedName, 1)
+			bad := false
+			func() {
+				det := map[string]any{"case_id": id, "format": s.Format, "features": s.Feat, "stream_len": len(s.B), "cut": j.cut, "stream_hex": ev.Hex(s.B, 1200),
+					"ctor_error": fmt.Sprint(cerr), "read_error": fmt.Sprint(rerr), "delivered": len(out), "content_len": len(s.Content)}
+				if pn != nil {
+					det["what"] = "reader panicked on a prefix: " + pn.Value
+					bad = true
+					det["read_schedule"] = schedName
+					c.Violation("panic-on-prefix:"+s.Format, det)
+					return
+				}
+				if want, ok := s.Legal[j.cut]; ok {
+					// cut on a stream / padding boundary of a multi-stream file
+					c.Count("legal_boundary_cuts", 1)
+					if cerr != nil || rerr != nil || !bytes.Equal(out, s.Content[:want]) {
+						det["what"] = fmt.Sprintf("cut %d falls on a stream/padding boundary: want clean decode of %d bytes, got ctor=%v read=%v %d bytes", j.cut, want, cerr, rerr, len(out))
+						bad = true
+						det["read_schedule"] = schedName
+						c.Violation("boundary-cut-not-clean", det)
+					}
+					return
+				}
+				rejected := (cerr != nil && cerr != io.EOF) || rerr != nil
+				if !rejected {
+					det["what"] = fmt.Sprintf("prefix of %d of %d bytes of a %s stream is taken as complete: constructor error %v, read ended cleanly after %d of %d content bytes", j.cut, len(s.B), s.Format, cerr, len(out), len(s.Content))
+					bad = true
+					det["read_schedule"] = schedName
+					c.Violation("prefix-accepted:"+s.Format, det)
+					return
+				}
+				if len(out) > len(s.Content) || !bytes.Equal(out, s.Content[:len(out)]) {
+					det["what"] = fmt.Sprintf("bytes delivered before the error are not a prefix of the content (first difference at %d)", firstDiff(out, s.Content))
+					bad = true
+					det["read_schedule"] = schedName
+					c.Violation("prefix-delivers-wrong-bytes:"+s.Format, det)
+				}
+				if cerr != nil {
+					c.Count("rejected_at_open", 1)
+				} else {
+					c.Count("rejected_while_reading", 1)
+				}
+			}()
+			if bad {
+				break
+			}
 		}
 		if i%7919 == 0 {
 			c.Sample(map[string]any{"stream": s.ID, "format": s.Format, "stream_len": len(s.B), "cut": j.cut, "ctor_error": fmt.Sprint(cerr), "read_error": fmt.Sprint(rerr), "delivered": len(out)})
